@@ -261,6 +261,7 @@ static std::string file_of(int content, const Pools& P, BlockParameters& bp) {
     return outs.at(0);
 }
 
+static std::string printable(const std::string& x) { for (unsigned char c : x.substr(0, 80)) if (c < 32 || c > 126) return "0x" + ref::hex(x.substr(0, 40)); return x.substr(0, 80); }
 static void run_copy(int content, int way, int fate, const std::vector<int>& ops, const Pools& P, Result& R, std::vector<BV>& out) {
     BlockParameters bp; bp.storage_parameters.max_block_items = 1000000;
     BlockParameters bp_other; bp_other.storage_parameters.max_block_items = 2; bp_other.storage_parameters.ticks_per_second = 1000; bp_other.storage_parameters.storage_hints.query_response_hints = 0x5; bp_other.storage_parameters.storage_hints.other_data_hints = 0;
@@ -272,8 +273,9 @@ static void run_copy(int content, int way, int fate, const std::vector<int>& ops
         switch (way) {
         case W_COPY_CTOR: cp.reset(new CdnsBlock(*src)); break; case W_MOVE_CTOR: cp.reset(new CdnsBlock(std::move(*src))); break;
         // the target of an assignment already holds a block with the SAME parameters index but other parameters (tick rate, block size, hints)
-        case W_COPY_ASSIGN: cp.reset(new CdnsBlock(bp_other, 0)); cp->add_ip_address("to-be-overwritten"); cp->add_question_response_record(P.qr[4]); *cp = *src; break;
-        case W_MOVE_ASSIGN: cp.reset(new CdnsBlock(bp_other, 0)); cp->add_name_rdata("to-be-overwritten"); cp->add_malformed_message(P.mm[0]); *cp = std::move(*src); break;
+        // ... and statistics of its own, an address event and a malformed message: everything the target held must be gone afterwards
+        case W_COPY_ASSIGN: cp.reset(new CdnsBlock(bp_other, 0)); cp->add_ip_address("to-be-overwritten"); cp->add_question_response_record(P.qr[4], P.stats[1]); cp->add_address_event_count(P.aec[2]); *cp = *src; break;
+        case W_MOVE_ASSIGN: cp.reset(new CdnsBlock(bp_other, 0)); cp->add_name_rdata("to-be-overwritten"); cp->add_malformed_message(P.mm[0], P.stats[2]); cp->add_address_event_count(P.aec[2]); *cp = std::move(*src); break;
         }
         if (fate == F_KEPT && (way == W_COPY_CTOR || way == W_COPY_ASSIGN)) { CdnsBlock& alias = *cp; *cp = alias; }   // self-assignment keeps the value
         switch (fate) {
@@ -291,13 +293,13 @@ static void run_copy(int content, int way, int fate, const std::vector<int>& ops
         auto read_one = [&](std::unique_ptr<std::istringstream>& is, std::unique_ptr<CdnsReader>& rd) { is.reset(new std::istringstream(bytes)); rd.reset(new CdnsReader(*is)); bool eof; return rd->read_block(eof); };
         std::unique_ptr<std::istringstream> is1, is2; std::unique_ptr<CdnsReader> r1, r2;
         std::unique_ptr<CdnsBlockRead> src, cp;
-        if (way == W_READER_ASSIGN) { cp.reset(new CdnsBlockRead()); is1.reset(new std::istringstream(bytes)); r1.reset(new CdnsReader(*is1)); bool eof; *cp = r1->read_block(eof); if (fate == F_DESTROYED) { r1.reset(); is1.reset(); } }
+        if (way == W_READER_ASSIGN) { cp.reset(new CdnsBlockRead()); cp->m_block_statistics = *P.stats[2]; is1.reset(new std::istringstream(bytes)); r1.reset(new CdnsReader(*is1)); bool eof; *cp = r1->read_block(eof); if (fate == F_DESTROYED) { r1.reset(); is1.reset(); } }
         else {
             src.reset(new CdnsBlockRead(read_one(is1, r1)));
             switch (way) {
             case W_READ_COPY_CTOR: cp.reset(new CdnsBlockRead(*src)); break; case W_READ_MOVE_CTOR: cp.reset(new CdnsBlockRead(std::move(*src))); break;
             case W_READ_COPY_ASSIGN: case W_READ_MOVE_ASSIGN: { // the target already holds a block read from ANOTHER file (other parameters, same index 0)
-                std::string other = file_of(1, P, bp_other); std::istringstream io(other); CdnsReader ro(io); bool eo; cp.reset(new CdnsBlockRead(ro.read_block(eo)));
+                std::string other = file_of(1, P, bp_other); std::istringstream io(other); CdnsReader ro(io); bool eo; cp.reset(new CdnsBlockRead(ro.read_block(eo))); cp->m_block_statistics = *P.stats[1];
                 if (way == W_READ_COPY_ASSIGN) *cp = *src; else *cp = std::move(*src); break; }
             }
             if (fate == F_KEPT && (way == W_READ_COPY_CTOR || way == W_READ_COPY_ASSIGN)) { CdnsBlockRead& alias = *cp; *cp = alias; }   // self-assignment keeps the value
@@ -316,7 +318,7 @@ static void run_copy(int content, int way, int fate, const std::vector<int>& ops
     }
     for (size_t i = 0; i < obs_copy.size(); i++) if (obs_copy[i] != obs_fresh[i]) {
         std::string which = i == 0 ? "initial-serialisation" : i <= ops.size() ? CN[ops[i - 1]] : "final-content";
-        out.push_back({tag + "|" + which, std::string(which) + " differs between the copy and a freshly built block: copy " + obs_copy[i].substr(0, 80) + " fresh " + obs_fresh[i].substr(0, 80)}); break; }
+        out.push_back({tag + "|" + which, std::string(which) + " differs between the copy and a freshly built block: copy " + printable(obs_copy[i]) + " fresh " + printable(obs_fresh[i])}); break; }
     if (src_before != src_after) out.push_back({tag + "|source-affected", "operations on the copy changed the source block"});
 }
 
@@ -335,7 +337,7 @@ int main(int argc, char** argv) {
         auto run_growth = [&](size_t table, Result& R) {
             struct { size_t table; } t{table};
                 // growth: N distinct values then each re-added (deque chunk boundaries, rehash) on three tables with cheap distinct values
-                set_note("growth=1;table=" + std::to_string(t.table)); size_t N = T ? 20000 : 5000; CdnsBlock b; std::string bad;
+                set_note("growth=1;table=" + std::to_string(t.table)); size_t N = T ? 200000 : 70000; /* beyond 2^16 entries: an index narrower than index_t wraps there */ CdnsBlock b; std::string bad;
                 for (size_t round = 0; round < 2 && bad.empty(); round++) for (size_t i = 0; i < N; i++) {
                     index_t got = 0;
                     switch (t.table) {
